@@ -227,6 +227,31 @@ def judge(root, info, order, plan, skips_of):
     st2, W2 = call(lambda: list(Walker().walk(root)))
     if st2 != 'ok' or not same(W, W2):
         fails.append(('nondeterministic', 'a second walk differs from the first'))
+    # (h) ONE Walker object, overlapping traversals: two walks in lock step, walks / filters / extracts started while an
+    #     outer walk of the same object is suspended — each traversal is the same pre-order whatever else is in flight
+    def overlapping():
+        w = Walker()
+        pairs = list(zip(w.walk(root), w.walk(root)))
+        if not same([a for a, _ in pairs], W) or not same([b for _, b in pairs], W):
+            return 'two walks of one Walker in lock step differ from a single walk (%d pairs for %d nodes)' % (len(pairs), len(W))
+        out = []
+        for i, n in enumerate(w.walk(root)):
+            out.append(n)
+            if i % 5 == 0:
+                inner = list(w.walk(n))
+                if not same(inner, list(Walker().walk(n))):
+                    return 'a walk of a subtree started during a walk of the same Walker differs from a fresh one'
+                f = list(w.filter(root, lambda x: isinstance(x, type(n))))
+                if not same(f, [x for x in W if isinstance(x, type(n))]):
+                    return 'a filter started during a walk of the same Walker is not walk-then-select'
+                if w.extract(root, lambda x: x is n) is not n:
+                    return 'extract during a walk of the same Walker does not find the node'
+        if not same(out, W):
+            return 'a walk interleaved with other traversals of the same Walker yields %d of %d nodes' % (len(out), len(W))
+        return None
+    sto, msg = call(overlapping)
+    if sto != 'ok' or msg:
+        fails.append(('overlapping', msg if sto == 'ok' else 'overlapping traversals raise: %s' % (msg,)))
     # (e) filter = walk then select, (f) extract = n-th match or TypeError
     for ks, ex in plan:
         cond = cond_of(ks)
